@@ -32,7 +32,7 @@ import (
 )
 
 const preamble = `From Coq Require Import String List NArith ZArith.
-From Fabio Require Import Lib.Outcome Lib.Bytes Lib.Pack Model.Redirect Model.RedirectSpec Model.RedirectTag Check.C13.
+From Fabio Require Import Lib.Outcome Lib.Bytes Lib.Pack Model.Redirect Model.RedirectSpec Model.RedirectTag Model.RedirectProto Check.C13.
 Import ListNotations.
 Local Open Scope N_scope.
 `
@@ -1483,6 +1483,285 @@ func main() {
 			}
 			run.Add("consul-tag-redirect", vh.App("CConsul", vh.HxS(prefix), vh.List(coqTags), vh.List(cands), vh.HxS(q.wire), coqReq(q), resp, vh.Nat(tr.n)), sample)
 		}
+	}
+
+
+	// =====================================================================================
+	// round 6: the scheme of the self-redirect test.  Requests given by their header fields AS
+	// SENT: X-Forwarded-Proto absent / http / https  x  Forwarded absent / without proto / with
+	// proto  x  plain / TLS connection, over the usual "http -> https" pair of routes (a
+	// redirect route for the host with a service route behind it) and its variants.  Rand
+	// source of its own.
+	// =====================================================================================
+	{
+		rk := rand.New(rand.NewSource(run.Seed*32452843 + 11))
+		gc6 := route.NewGlobCache(1000)
+		pick6, match6 := route.Picker["rr"], route.Matcher["prefix"]
+		type hdr = [2]string
+		xfpNames := []string{"X-Forwarded-Proto", "X-Forwarded-Proto", "x-forwarded-proto", "X-FORWARDED-PROTO"}
+		fwdNames := []string{"Forwarded", "Forwarded", "forwarded", "FORWARDED"}
+		fwdNoProto := []string{"for=203.0.113.7", "for=203.0.113.7;by=10.0.0.1", `for="[2001:db8::1]:4711"`, "for=192.0.2.43, for=198.51.100.17",
+			"by=10.0.0.1;host=example.com", "for=1.2.3.4; httpproto=http/1.1"}
+		fwdProto := []string{"for=203.0.113.7;proto=https", "for=203.0.113.7;proto=http", "proto=https", "proto=http;for=1.2.3.4",
+			"for=1.2.3.4; proto=https; by=10.0.0.1", "for=192.0.2.43, for=198.51.100.17;proto=https", "for=1.2.3.4;Proto=https", "for=1.2.3.4;proto=http;by=10.0.0.1"}
+		others6 := []hdr{{"User-Agent", "verif/1"}, {"X-Forwarded-For", "203.0.113.7"}, {"X-Forwarded-Port", "443"}, {"X-Forwarded-Host", "example.com"},
+			{"Accept", "text/html"}, {"X-Real-Ip", "203.0.113.7"}, {"Cookie", "a=b"}}
+
+		// the servers of the socket cases: one plain, one TLS, over the same HTTPProxy
+		var curTbl atomic.Value // route.Table
+		var upSock int64
+		trSock := &countingRT{}
+		pxSock := &proxy.HTTPProxy{Config: config.Proxy{}, Transport: trSock, Lookup: func(req *http.Request) *route.Target {
+			t := curTbl.Load().(route.Table).Lookup(req, "", pick6, match6, gc6, false)
+			id := -1
+			if t != nil {
+				fmt.Sscanf(t.Service, "svc%d", &id)
+			}
+			atomic.StoreInt64(&upSock, int64(id))
+			return t
+		}}
+		srvPlain := httptest.NewServer(pxSock)
+		srvTLS := httptest.NewTLSServer(pxSock)
+
+		// shape of the table: a redirect route for the host, what stands behind it
+		mkTable := func(shape int, h, sc string, isTLS bool) ([]string, []tdesc) {
+			var lines []string
+			var descs []tdesc
+			add := func(src, tmpl, opts string) {
+				u, err := url.Parse(tmpl)
+				if err != nil {
+					panic(err)
+				}
+				id := len(descs)
+				if opts == "" {
+					lines = append(lines, fmt.Sprintf("route add svc%d %s %s", id, src, tmpl))
+				} else {
+					lines = append(lines, fmt.Sprintf("route add svc%d %s %s opts \"%s\"", id, src, tmpl, opts))
+				}
+				descs = append(descs, tdesc{id: id, tmpl: tmpl, u: u})
+			}
+			switch shape {
+			case 0: // the usual pair: host:port/ redirects to the other scheme, host/ is the service
+				port := "80"
+				if isTLS != (rk.Intn(5) == 0) { // mostly the port of the connection, so that the redirect route matches
+					port = "443"
+				}
+				add(h+":"+port+"/", sc+"://"+h+"$path", "redirect=301")
+				add(h+"/", "http://10.0.0.9:80/", "")
+			case 1: // $host template on the host, the service on the host-less fallback
+				add(h+"/", sc+"://$host"+[]string{"$path", "/$path"}[rk.Intn(2)], "redirect="+[]string{"302", "307"}[rk.Intn(2)])
+				add("/", "http://10.0.0.9:80/", "")
+			case 2: // another redirect behind it
+				add(h+"/", sc+"://"+h+"/$path", "redirect=308")
+				add("/", "https://other.example.org/$path", "redirect=302")
+			default: // nothing behind it
+				add("/", sc+"://$host$path", "redirect=301")
+			}
+			return lines, descs
+		}
+
+		serveP := func(class string, lines []string, descs []tdesc, host, wire, query string, hs []hdr, isTLS, sock bool) {
+			text := strings.Join(lines, "\n")
+			tbl, err := route.NewTable(bytes.NewBufferString(text))
+			if err != nil {
+				run.Exclude("route table rejected")
+				return
+			}
+			idOf := map[*route.Target]int{}
+			for _, rts := range tbl {
+				for _, rt := range rts {
+					for _, t := range rt.Targets {
+						var id int
+						if _, err := fmt.Sscanf(t.Service, "svc%d", &id); err != nil || id >= len(descs) {
+							continue
+						}
+						descs[id].code = t.RedirectCode
+						idOf[t] = id
+					}
+				}
+			}
+			if len(idOf) != len(descs) {
+				run.Exclude("route table rejected")
+				return
+			}
+			var sb strings.Builder
+			sb.WriteString("GET " + uri(wire, query) + " HTTP/1.1\r\nHost: " + host + "\r\n")
+			var coqH []string
+			for _, h := range hs {
+				sb.WriteString(h[0] + ": " + h[1] + "\r\n")
+				coqH = append(coqH, vh.Pair(vh.HxS(h[0]), vh.HxS(h[1])))
+			}
+			sb.WriteString("\r\n")
+			raw := sb.String()
+			parse := func() *http.Request { // the request as net/http reads it from the wire
+				req, err := http.ReadRequest(bufio.NewReader(strings.NewReader(raw)))
+				if err != nil {
+					return nil
+				}
+				req.RemoteAddr = "1.2.3.4:5555"
+				if isTLS {
+					req.TLS = &tls.ConnectionState{}
+				}
+				return req
+			}
+			creq := parse()
+			if creq == nil {
+				run.Exclude("request net/http's server would refuse")
+				return
+			}
+			rHost, rPath, rRaw, rQuery := creq.Host, creq.URL.Path, creq.URL.RawPath, creq.URL.RawQuery
+			var cands []string
+			for _, c := range route.VerifC13Candidates(tbl, creq, pick6, match6, gc6) {
+				if c == nil {
+					cands = append(cands, vh.None)
+				} else {
+					cands = append(cands, vh.Some(coqTarget(descs[idOf[c]])))
+				}
+			}
+			sample := map[string]interface{}{"routes": text, "host": host, "request": uri(wire, query), "headers": hs, "tls": isTLS, "socket": sock}
+			var status, hits, up int
+			var loc string
+			var hasLoc bool
+			if sock {
+				curTbl.Store(tbl)
+				trSock.mu.Lock()
+				before := trSock.n
+				trSock.mu.Unlock()
+				var c net.Conn
+				if isTLS {
+					c, err = tls.Dial("tcp", srvTLS.Listener.Addr().String(), &tls.Config{InsecureSkipVerify: true})
+				} else {
+					c, err = net.Dial("tcp", srvPlain.Listener.Addr().String())
+				}
+				if err != nil {
+					panic(err)
+				}
+				c.SetDeadline(time.Now().Add(5 * time.Second))
+				io.WriteString(c, raw)
+				resp, rerr := http.ReadResponse(bufio.NewReader(c), nil)
+				c.Close()
+				if rerr != nil {
+					run.Violation(run.NextID(), fmt.Sprintf("request with forwarding headers got no HTTP response (%v)", rerr), sample)
+					return
+				}
+				trSock.mu.Lock()
+				hits = trSock.n - before
+				trSock.mu.Unlock()
+				status, loc = resp.StatusCode, resp.Header.Get("Location")
+				_, hasLoc = resp.Header["Location"]
+				up = int(atomic.LoadInt64(&upSock))
+			} else {
+				tr := &countingRT{}
+				up = -1
+				p := &proxy.HTTPProxy{Config: config.Proxy{}, Transport: tr, Lookup: func(req *http.Request) *route.Target {
+					t := tbl.Lookup(req, "", pick6, match6, gc6, false)
+					if t != nil {
+						fmt.Sscanf(t.Service, "svc%d", &up)
+					}
+					return t
+				}}
+				w := httptest.NewRecorder()
+				if panicked, pval := vh.Recover(func() { p.ServeHTTP(w, parse()) }); panicked {
+					run.Violation(run.NextID(), fmt.Sprintf("ServeHTTP panicked on a request with forwarding headers: %v", pval), sample)
+					return
+				}
+				status, loc, hits = w.Code, w.Header().Get("Location"), tr.n
+				_, hasLoc = w.Header()["Location"]
+			}
+			sample["status"], sample["location"], sample["upstream_hits"] = status, loc, hits
+			resp, ok := coqResp(status, loc, hasLoc, hits, up, false, nil)
+			if !ok {
+				run.Violation(run.NextID(), fmt.Sprintf("request with forwarding headers ended in an unclassifiable way (status %d)", status), sample)
+				return
+			}
+			run.Add(class, vh.App("CServeP", vh.List(coqH), vh.List(cands), vh.HxS(rHost), vh.HxS(wire), vh.HxS(rPath), vh.HxS(rRaw), vh.HxS(rQuery),
+				vh.Bool(isTLS), resp, vh.Nat(hits)), sample)
+		}
+		mkHeaders := func(xfp, fwd string, spell bool) []hdr {
+			var hs []hdr
+			if xfp != "" {
+				n := "X-Forwarded-Proto"
+				if spell {
+					n = xfpNames[rk.Intn(len(xfpNames))]
+				}
+				hs = append(hs, hdr{n, xfp})
+			}
+			if fwd != "" {
+				n := "Forwarded"
+				if spell {
+					n = fwdNames[rk.Intn(len(fwdNames))]
+				}
+				hs = append(hs, hdr{n, fwd})
+			}
+			if len(hs) == 2 && rk.Intn(2) == 0 {
+				hs[0], hs[1] = hs[1], hs[0]
+			}
+			return hs
+		}
+		paths6 := []string{"/account/settings", "/x", "/", "/a/b", "/a%2Fb/c"}
+
+		// 6a. the whole grid, directed
+		for shape := 0; shape < 3; shape++ {
+			for _, sc := range schemes {
+				for _, xfp := range []string{"", "http", "https"} {
+					for _, fwd := range []string{"", fwdNoProto[0], fwdNoProto[1], fwdProto[0], fwdProto[1], fwdProto[2]} {
+						for _, isTLS := range []bool{false, true} {
+							lines, descs := mkTable(shape, "example.com", sc, isTLS)
+							serveP("serve-self-forwarded", lines, descs, "example.com", paths6[rk.Intn(len(paths6))], "", mkHeaders(xfp, fwd, false), isTLS, false)
+						}
+					}
+				}
+			}
+		}
+		// 6b. random: every form of the Forwarded value, other spellings of the names, repeated
+		// fields (the first one counts), an empty X-Forwarded-Proto, unrelated fields around
+		for i := 0; i < run.Scale(140, 4000); i++ {
+			h := []string{"example.com", "shop.example.com", "foo.com"}[rk.Intn(3)]
+			sc := schemes[rk.Intn(2)]
+			isTLS := rk.Intn(2) == 0
+			xfp := []string{"", "http", "https", "https"}[rk.Intn(4)]
+			fwd := ""
+			switch rk.Intn(5) {
+			case 0:
+			case 1, 2:
+				fwd = fwdNoProto[rk.Intn(len(fwdNoProto))]
+			default:
+				fwd = fwdProto[rk.Intn(len(fwdProto))]
+			}
+			hs := mkHeaders(xfp, fwd, true)
+			switch rk.Intn(8) {
+			case 0: // a second X-Forwarded-Proto field
+				hs = append(hs, hdr{"X-Forwarded-Proto", []string{"http", "https"}[rk.Intn(2)]})
+			case 1: // a second Forwarded field
+				hs = append(hs, hdr{"Forwarded", []string{"for=10.1.1.1", "for=10.1.1.1;proto=http", "for=10.1.1.1;proto=https"}[rk.Intn(3)]})
+			case 2: // an X-Forwarded-Proto field that says nothing, in front
+				if xfp == "" {
+					hs = append([]hdr{{"X-Forwarded-Proto", ""}}, hs...)
+				}
+			}
+			for k := rk.Intn(3); k > 0; k-- {
+				hs = append(hs, others6[rk.Intn(len(others6))])
+				if rk.Intn(2) == 0 {
+					j := rk.Intn(len(hs))
+					hs[j], hs[len(hs)-1] = hs[len(hs)-1], hs[j]
+				}
+			}
+			lines, descs := mkTable(rk.Intn(4), h, sc, isTLS)
+			serveP("serve-self-forwarded-random", lines, descs, h, paths6[rk.Intn(len(paths6))], []string{"", "", "page=2"}[rk.Intn(3)], hs, isTLS, false)
+		}
+		// 6c. over real sockets: the connection is a plain or a TLS one for net/http itself
+		for _, xfp := range []string{"", "http", "https"} {
+			for _, fwd := range []string{"", fwdNoProto[0], fwdProto[1], fwdProto[0]} {
+				for _, isTLS := range []bool{false, true} {
+					for _, sc := range schemes {
+						lines, descs := mkTable(rk.Intn(3), "example.com", sc, isTLS)
+						serveP("serve-self-forwarded-socket", lines, descs, "example.com", paths6[rk.Intn(len(paths6))], "", mkHeaders(xfp, fwd, true), isTLS, true)
+					}
+				}
+			}
+		}
+		srvPlain.Close()
+		srvTLS.Close()
 	}
 
 	run.Finish(preamble, (len(run.Cases)+15)/16+1)
